@@ -2,6 +2,7 @@ package util
 
 import (
 	"github.com/pkg/errors"
+	"io"
 	"sync"
 	"time"
 )
@@ -31,6 +32,7 @@ type InQueue struct {
 	queueHasData   bool       // Boolean specifiying if there's any data in the queue
 	queueNotifiers []func()   // A list of waiters to notify when the queue has data
 	readDeadline   time.Time
+	closed         bool // Set by Close: blocked and future reads end once the buffered data is consumed
 }
 
 // HasData returns true if there's any data waiting in the queue to be read
@@ -70,6 +72,10 @@ func (q *InQueue) waitNonEmtpyQueue() error {
 		q.queueMutex.Unlock()
 		return nil
 	}
+	if q.closed {
+		q.queueMutex.Unlock()
+		return io.EOF
+	}
 
 	wait := make(chan struct{}, 0)
 	q.queueNotifiers = append(q.queueNotifiers, func() {
@@ -108,7 +114,29 @@ func (q *InQueue) Read(p []byte) (n int, err error) {
 	q.in = q.in[copied:]
 
 	q.checkQueueHasAny()
+	if copied == 0 && len(p) > 0 && q.isClosed() {
+		// woken up by Close, nothing left to read
+		return 0, io.EOF
+	}
 	return copied, nil
+}
+
+// Close ends the stream for the reader: a Read blocked on an empty queue returns io.EOF, and so do
+// further reads once the data already received has been consumed.
+func (q *InQueue) Close() {
+	q.queueMutex.Lock()
+	q.closed = true
+	for _, f := range q.queueNotifiers {
+		f()
+	}
+	q.queueNotifiers = q.queueNotifiers[0:0]
+	q.queueMutex.Unlock()
+}
+
+func (q *InQueue) isClosed() bool {
+	q.queueMutex.Lock()
+	defer q.queueMutex.Unlock()
+	return q.closed
 }
 
 // Try to append the Packet to our byte list. Returns an error if out of order
@@ -205,6 +233,7 @@ type OutQueue struct {
 	queueHasData   bool         // Boolean specifiying if the queue is full or not
 	queueNotifiers []func()     // A list of waiters to notify when the queue is emptied
 	writeDeadline  time.Time
+	closed         bool // Set by Close: blocked and future writes fail
 }
 
 // NextChunk will return the first non-acked chunk from the queue. It will return nil if the queue is empty
@@ -284,6 +313,11 @@ func (q *OutQueue) waitEmptyQueue() error {
 	}
 	q.queueMutex.Lock()
 
+	if q.closed {
+		q.queueMutex.Unlock()
+		return ErrStreamBroken
+	}
+
 	// If queue is not full, return straight away
 	if !q.queueHasData {
 		q.queueMutex.Unlock()
@@ -301,16 +335,37 @@ func (q *OutQueue) waitEmptyQueue() error {
 		select {
 		case <-wait:
 		}
-		return nil
+		return q.brokenIfClosed()
 	} else {
 		// Wait for the notification that the queue has emptied
 		select {
 		case <-time.After(q.writeDeadline.Sub(time.Now())):
 			return ErrDeadlineExceeded
 		case <-wait:
-			return nil
+			return q.brokenIfClosed()
 		}
 	}
+}
+
+func (q *OutQueue) brokenIfClosed() error {
+	q.queueMutex.Lock()
+	defer q.queueMutex.Unlock()
+	if q.closed {
+		return ErrStreamBroken
+	}
+	return nil
+}
+
+// Close ends the stream for the writer: a Write waiting for its packets to be acknowledged returns
+// ErrStreamBroken, and so do further writes.
+func (q *OutQueue) Close() {
+	q.queueMutex.Lock()
+	q.closed = true
+	for _, f := range q.queueNotifiers {
+		f()
+	}
+	q.queueNotifiers = q.queueNotifiers[0:0]
+	q.queueMutex.Unlock()
 }
 
 func (q *OutQueue) addChunk(data []byte) error {
